@@ -51,3 +51,27 @@ Definition dcheck (tol : Q) (c : dcase) : bool * Z :=
   | Some m => Dlists_close tol m (z2D (dc_impl c))
   | None => (false, 1%Z)
   end.
+
+(** C02, hypothesis of the solve theorems evaluated on the generated cases: per line of a kernel case, does the
+    cell-Peclet condition of [Proofs/Pivots.v] hold (atemp, ctemp >= 0 on every cell), are all Thomas pivots
+    positive, are they all non-zero.  Result: (every line has non-zero pivots and every line meeting the
+    condition has positive pivots, number of lines meeting the condition). *)
+Definition flagline (b : bool) (len : nat) : list D := repeat (if b then n1 else n0) len.
+Definition kpiv (c : kcase) : bool * Z :=
+  let grids := map l2D (kc_grids c) in
+  let p := pop2D (kc_pop c) in
+  let k := kc_k c in
+  let xs := nth k grids [] in
+  let N := length xs in
+  let dt := Q2D (kc_dt c) in
+  let Vf := Vfunc_beta (p_nu p) (p_beta p) in
+  let Mf os := Mfunc (p_ms p) os (p_gamma p) (p_h p) in
+  let pec os := forallb (fun i => nleb n0 (atemp xs Vf (Mf os) (kc_delj c) i) && nleb n0 (ctemp xs Vf (Mf os) (kc_delj c) i)) (seq 0 (N - 1)) in
+  let pivs os line := all_pivots (line_rows xs Vf (Mf os) (p_nu p) (all_eq n0 os) (all_eq n1 os) dt (kc_delj c) line) in
+  let phi := z2D (kc_phi c) in
+  let fpec := map_lines (kc_shape c) grids k (fun os line => flagline (pec os) N) phi in
+  let fpos := map_lines (kc_shape c) grids k (fun os line => flagline (forallb (fun b => nltb n0 b) (pivs os line)) N) phi in
+  let fnz := map_lines (kc_shape c) grids k (fun os line => flagline (forallb (fun b => negb (nleb n0 b && nleb b n0)) (pivs os line)) N) phi in
+  let isone (x : D) := nleb n1 x in
+  (forallb isone fnz && forallb (fun ab => implb (isone (fst ab)) (isone (snd ab))) (combine fpec fpos),
+   Z.of_nat (length (filter isone fpec))).
